@@ -376,3 +376,26 @@ PROPS["C17"] = dict(
         assumptions=["doubles compared exactly", "axis coordinates are those the library reports"],
     ),
 )
+
+PROPS["C16"] = dict(
+    level="model_checking",
+    budget_s=dict(quick=240, thorough=1800),
+    parts=[dict(name="misuse", bin="C16", flavour="asan", max_crashes=60)],
+    manifest=dict(
+        engine="E1", design_ref="5 / C16",
+        technique="exhaustive enumeration of misuse programs (state x call, and ordered call pairs) on the real library under ASan+UBSan with an instrumented HDF5 boundary shim, libstdc++ assertions and the boost assert handler; crash sandbox attributes every report to its program",
+        text="A data-access world (arrays of rank 1-3 with every descriptor kind, tags / multi-tags with fewer, equal and more position entries than dimensions, empty and "
+             "too-narrow positions arrays, never-written String data, frames with unwritten rows, features and positions whose arrays were deleted) is built; each of ~500 misuse "
+             "calls (wrong ranks, zero counts, offsets at/past the extent, 2^64-1, indices past the end, slices with 0..rank+1 entries, NaN/inf positions, default-constructed, "
+             "deleted-entity and closed-file handles, odd unit strings, Variant/NDSize/NDArray edge calls, validation) runs alone on a ReadWrite and on a ReadOnly copy, and in ordered "
+             "pairs (quick: a systematic 1/16 sub-grid plus all stateful-first pairs /4; thorough: all pairs). Every call must return or throw a C++ exception: any ASan/UBSan report, "
+             "shim contract breach (HDF5 touching bytes outside a buffer nix handed to it), libstdc++/boost assertion, signal or std::terminate is a violation.",
+        note="No uninitialised-read detection (MSan would need an instrumented libhdf5/boost). The other checks also run crash-sandboxed; their ASan runs are part of the thorough tier of C16."),
+    evidence=dict(
+        keys=dict(states=("distinct", "outcomes"), transitions=("count", "calls"), traces_validated_against_impl=("count", "programs"),
+                  evaluations=("count", "calls"), distinct_nontrivial=("distinct", "outcomes")),
+        rule="program = one misuse call (x {ReadWrite, ReadOnly} world) or an ordered pair of misuse calls on the ReadWrite world; distinct_nontrivial = distinct (call, outcome class: returns / exception type) pairs.",
+        bound=dict(quick="bound 1: all calls x 2 modes; bound 2: 1/16 sub-grid of ordered pairs + stateful-first pairs", thorough="bound 2: all ordered pairs"),
+        assumptions=["what ASan, UBSan, _GLIBCXX_ASSERTIONS, BOOST_ENABLE_ASSERT_HANDLER and the HDF5 boundary shim can see", "libhdf5 itself is not instrumented"],
+    ),
+)
